@@ -151,6 +151,9 @@ func c12PosRes(f func() (*tak.Position, error)) (string, string) {
 	return out, ""
 }
 
+// c12Overwritten: set when a position handed out by the iterator changed after the iterator moved on (reported as a failure of its own class)
+var c12Overwritten string
+
 // c12Replay: for it.Next() {} over the Iterator; "OK <n> <final position>" / "ERR init" / "ERR replay <n>" / "PANIC"
 func c12Replay(p *ptn.PTN) (string, string) {
 	var out string
@@ -161,10 +164,25 @@ func c12Replay(p *ptn.PTN) (string, string) {
 		}
 		it := p.Iterator()
 		n := 0
+		// every position the iterator reports is kept and looked at again after the walk: a reported position is the start
+		// position with exactly the moves up to there applied, also after the iterator has moved on
+		var held []*tak.Position
+		var snap []string
 		for it.Next() {
 			n++
 			if n > len(p.Ops)+5 {
 				out = "HANG"
+				return
+			}
+			if q := it.Position(); q != nil && len(held) < 400 {
+				held = append(held, q)
+				snap = append(snap, encAbs(q))
+			}
+		}
+		for i, q := range held {
+			if encAbs(q) != snap[i] {
+				c12Overwritten = fmt.Sprintf("the position reported at step %d (%s) reads %s after the walk", i+1, snap[i], encAbs(q))
+				out = fmt.Sprintf("OVERWRITTEN %d", i+1)
 				return
 			}
 		}
@@ -390,6 +408,10 @@ func c12Oracle(c *ctx, g *c12Game, input string, o *c12Obs, qs []c12Query) {
 	}
 	if o.anyPanic() {
 		fail("ptn-panic", "panic: "+o.panicMsg, "a value or an error")
+	}
+	if c12Overwritten != "" {
+		fail("iterator-position-overwritten", c12Overwritten, "a position reported by the iterator keeps showing the moves that preceded it")
+		c12Overwritten = ""
 		return
 	}
 	wf := g.wellFormed()
@@ -463,7 +485,6 @@ func c12SpecReplay(start *aboard, ops []c12Op) string {
 	}
 	return "OK " + c12EncAboard(a)
 }
-
 
 // ---------- call histories on one *ptn.PTN object ----------
 // H cases: parse the text once, ask queries1 on the object, then extend the SAME object (AddMoves or appended ops: legal
